@@ -26,8 +26,9 @@ def check(rec, P, D, path, sh, op, only=None, extra_info=None):
     sub = refmap.to_ref(spec, R, lp, x)
     goals = [(lab, z3.substitute(c, *sub), dict(dir='eao2ref', label=lab)) for lab, c in R.cons]
     obj_R = z3.substitute(R.obj, *sub)
-    goals.append(('objective', obj_R >= lp.val(x), dict(dir='eao2ref', label='objective')))
     rec.twin(P + '/eao2ref', base + F, obj_R >= lp.val(x) + 1)
+    if not objective_termwise(rec, P + '/eao2ref', base + F, R, lp, x, sub, 'eao2ref'):
+        goals.append(('objective', obj_R >= lp.val(x), dict(dir='eao2ref', label='objective')))
     rec.prove_each(P + '/eao2ref', base + F, goals, form='Q3', info=info)
     # ---------------- REF -> EAO
     RC = R.all_constraints()
@@ -44,10 +45,49 @@ def check(rec, P, D, path, sh, op, only=None, extra_info=None):
         goals.append(('int[%d]' % i, z3.Or(xt[i] == 0, xt[i] == 1), dict(dir='ref2eao', label='int[%d]' % i)))
     for r, (coefs, ty, rhs) in enumerate(lp.rows):
         goals.append(('row[%d]' % r, lpsem.row_constraint(coefs, ty, rhs, xt), dict(dir='ref2eao', label='row[%d]' % r)))
-    goals.append(('objective', lp.val(xt) >= R.obj, dict(dir='ref2eao', label='objective')))
+    if not objective_termwise(rec, P + '/ref2eao', base + RC, R, lp, xt, None, 'ref2eao'):
+        goals.append(('objective', lp.val(xt) >= R.obj, dict(dir='ref2eao', label='objective')))
     rec.twin(P + '/ref2eao', base + RC, lp.val(xt) >= R.obj + 1)
     rec.prove_each(P + '/ref2eao', base + RC, goals, form='Q3', info=info)
     return spec, R, lp
+
+
+def objective_termwise(rec, name, assume, R, lp, xe, sub, direction):
+    """the objective inequality decomposed into one small inequality per (asset, step) -- per asset for storages and order books.
+    Sufficient, not necessary: returns True only if every piece is discharged; otherwise the caller asks the global question."""
+    import time as _t
+    ref = {}
+    for asset, t, term in R.obj_tagged:
+        ref.setdefault((asset, t), []).append(z3.substitute(term, *sub) if sub else term)
+    whole = {a for a, t in ref if t is None}
+    eao = {}
+    for i, (asset, vn, t, node) in lp.var_keys().items():
+        key = (asset, None) if asset in whole else (asset, t)
+        eao.setdefault(key, []).append(-lp.c[i] * xe[i])
+    unmapped = [i for i in range(lp.n) if i not in lp.var_keys()]
+    if any(not lpsem.is_zero_term(z3.simplify(lp.c[i])) for i in unmapped):
+        return False
+    s = z3.Solver()
+    s.set('timeout', 20000)
+    s.add(*assume)
+    t0 = _t.time()
+    ok = True
+    n = 0
+    for key in sorted(set(ref) | set(eao), key=str):
+        r_ = z3.Sum(ref.get(key, [z3.RealVal(0)])) if len(ref.get(key, [])) != 1 else ref[key][0]
+        e_ = z3.Sum(eao.get(key, [z3.RealVal(0)])) if len(eao.get(key, [])) != 1 else eao[key][0]
+        goal = (r_ >= e_) if direction == 'eao2ref' else (e_ >= r_)
+        s.push(); s.add(z3.Not(goal)); r = s.check(); s.pop()
+        n += 1
+        if r != z3.unsat:
+            ok = False
+            break
+    rec.solver_s += _t.time() - t0
+    if ok:
+        nm = name + '/objective(termwise:%d pieces)' % n
+        rec.obligations.append(dict(name=nm, verdict='unsat', secs=round(_t.time() - t0, 4), form='Q3'))
+        rec.distinct.add(nm)
+    return ok
 
 
 def ref_optimum(R):
